@@ -838,7 +838,7 @@ theorem partialT_iff (pm : List Path) (root : Shape) (var : VarTable) (o : Opts)
     (ht : truncOf (validatePartialT pm root var o) = false) (hl : (leafPaths pm).length ≤ maxLeaves o)
     (p : Path) (c : Bytes) :
     (∃ e ∈ fieldsOf (validatePartialT pm root var o), e.path = p ∧ e.code = c) ↔
-      IsLeaf pm p ∧ ∃ loc t, ruleAt root p = some (loc, t) ∧ ∃ v ∈ varLookup var loc t, c = tagPrefix ++ v.tag := by
+      IsLeaf pm p ∧ ∃ loc t, ruleAt root p = some (loc, t) ∧ ∃ v ∈ varLookup var loc t, c = tagPrefix ++ v.1 := by
   rw [validatePartialT_eq] at ht ⊢
   rw [partial_iff pm _ o ht hl p c]
   unfold Expected
@@ -857,9 +857,9 @@ theorem partialT_iff (pm : List Path) (root : Shape) (var : VarTable) (o : Opts)
       obtain ⟨v0, hv0, rfl⟩ := hv
       exact ⟨loc, t, rfl, v0, hv0, rfl⟩
   · rintro ⟨hleaf, loc, t, hr, v, hv, rfl⟩
-    refine ⟨hleaf, ⟨p, tagPrefix ++ v.tag, v.shows.map (p ++ ·)⟩, ?_, rfl⟩
+    refine ⟨hleaf, ⟨p, tagPrefix ++ v.1, reveals (maxRecursionDepth + 1) p v.2⟩, ?_, rfl⟩
     apply List.mem_map.mpr
-    refine ⟨{ v with shows := v.shows.map (p ++ ·) }, ?_, rfl⟩
+    refine ⟨{ tag := v.1, shows := reveals (maxRecursionDepth + 1) p v.2 }, ?_, rfl⟩
     rw [lemma_ownTags_induced root var _ p ((leaf_fixed_correct pm p).mpr hleaf)]
     unfold ownTagsT
     simp only [hr, List.mem_map]
@@ -917,6 +917,146 @@ theorem errorsOK_model_partialT (pm : List Path) (root : Shape) (var : VarTable)
     errorsOK (expectedErrs pm rules o) o single (validatePartialT pm root var o) = true := by
   rw [validatePartialT_of_agree pm root var rules o hag]
   exact errorsOK_model_partial pm rules o single hs
+
+/-! ### the redaction walk -/
+
+/-- **values of paths covered by the redactor never appear**: if the redactor covers any path the printed value
+    reveals (the error's own path included), `coversValue` hides the value — for every value shape, however deep -/
+theorem coversValue_of_reveals (red : Path → Bool) :
+    ∀ (fuel : Nat) (p : Path) (s : Shape), (reveals fuel p s).any red = true → coversValue red fuel p s = true
+  | 0, _, _, _ => rfl
+  | fuel + 1, p, s, h => by
+    simp only [reveals, List.any_cons, Bool.or_eq_true] at h
+    simp only [coversValue, Bool.or_eq_true]
+    rcases h with h | h
+    · exact Or.inl h
+    · right
+      cases hd : valDeref s with
+      | none => simp [hd] at h
+      | some d =>
+        cases d with
+        | struct fields =>
+          simp only [hd, List.any_eq_true, List.mem_flatMap] at h ⊢
+          obtain ⟨q, ⟨x, hx, hq⟩, hr⟩ := h
+          exact ⟨x, hx, coversValue_of_reveals red fuel _ _ (List.any_eq_true.mpr ⟨q, hq, hr⟩)⟩
+        | seq items =>
+          simp only [hd, List.any_eq_true, List.mem_flatMap] at h ⊢
+          obtain ⟨q, ⟨x, hx, hq⟩, hr⟩ := h
+          exact ⟨x, hx, coversValue_of_reveals red fuel _ _ (List.any_eq_true.mpr ⟨q, hq, hr⟩)⟩
+        | map es =>
+          simp only [hd, List.any_eq_true, List.mem_flatMap] at h ⊢
+          obtain ⟨q, ⟨x, hx, hq⟩, hr⟩ := h
+          exact ⟨x, hx, coversValue_of_reveals red fuel _ _ (List.any_eq_true.mpr ⟨q, hq, hr⟩)⟩
+        | other => simp [hd] at h
+        | nilPtr => simp [hd] at h
+        | ptr _ => simp [hd] at h
+        | iface _ => simp [hd] at h
+        | nilIface => simp [hd] at h
+
+/-- the value fits the walk's depth limit (`maxRecursionDepth`): no branch is cut -/
+def fits : Nat → Shape → Bool
+  | 0, _ => false
+  | fuel + 1, s =>
+    match valDeref s with
+    | some (.struct fields) => (mappedFields fields).all fun (_, _, fs) => fits fuel fs
+    | some (.seq items) => items.all (fits fuel)
+    | some (.map es) => es.all fun (_, v) => fits fuel v
+    | _ => true
+
+/-- … and within the depth limit it hides nothing else: `coversValue` is exactly "the redactor covers a revealed
+    path" (beyond the limit it hides, deliberately) -/
+theorem coversValue_only_reveals (red : Path → Bool) :
+    ∀ (fuel : Nat) (p : Path) (s : Shape), fits fuel s = true → coversValue red fuel p s = true →
+      (reveals fuel p s).any red = true
+  | 0, _, _, hf, _ => by simp [fits] at hf
+  | fuel + 1, p, s, hf, h => by
+    simp only [coversValue, Bool.or_eq_true] at h
+    simp only [reveals, List.any_cons, Bool.or_eq_true]
+    rcases h with h | h
+    · exact Or.inl h
+    · right
+      cases hd : valDeref s with
+      | none => simp [hd] at h
+      | some d =>
+        cases d with
+        | struct fields =>
+          simp only [fits, hd, List.all_eq_true] at hf
+          simp only [hd, List.any_eq_true, List.mem_flatMap] at h ⊢
+          obtain ⟨x, hx, hc⟩ := h
+          obtain ⟨q, hq, hr⟩ := List.any_eq_true.mp (coversValue_only_reveals red fuel _ _ (hf x hx) hc)
+          exact ⟨q, ⟨x, hx, hq⟩, hr⟩
+        | seq items =>
+          simp only [fits, hd, List.all_eq_true] at hf
+          simp only [hd, List.any_eq_true, List.mem_flatMap] at h ⊢
+          obtain ⟨x, hx, hc⟩ := h
+          have hxi : x.1 ∈ items := (List.mem_zipIdx_iff_getElem?.mp hx) |> fun h' => List.mem_of_getElem? h'
+          obtain ⟨q, hq, hr⟩ := List.any_eq_true.mp (coversValue_only_reveals red fuel _ _ (hf x.1 hxi) hc)
+          exact ⟨q, ⟨x, hx, hq⟩, hr⟩
+        | map es =>
+          simp only [fits, hd, List.all_eq_true] at hf
+          simp only [hd, List.any_eq_true, List.mem_flatMap] at h ⊢
+          obtain ⟨x, hx, hc⟩ := h
+          obtain ⟨q, hq, hr⟩ := List.any_eq_true.mp (coversValue_only_reveals red fuel _ _ (hf x hx) hc)
+          exact ⟨q, ⟨x, hx, hq⟩, hr⟩
+        | other => simp [hd] at h
+        | nilPtr => simp [hd] at h
+        | ptr _ => simp [hd] at h
+        | iface _ => simp [hd] at h
+        | nilIface => simp [hd] at h
+
+/-- the error the table-driven model builds (`mkErr`, hidden iff a revealed path is covered) is the error the
+    code builds with `coversValue`, for every value within the depth limit; beyond it the code hides anyway -/
+theorem mkErr_is_coversValue (o : Opts) (p : Path) (tag : Bytes) (value : Shape)
+    (hf : fits (maxRecursionDepth + 1) value = true) :
+    mkErr o p ⟨tag, reveals (maxRecursionDepth + 1) p value⟩ = mkErrT o p tag value := by
+  have hp : p ∈ reveals (maxRecursionDepth + 1) p value := by simp [reveals]
+  have hiff : (reveals (maxRecursionDepth + 1) p value).any o.redacted.contains =
+      coversValue o.redacted.contains (maxRecursionDepth + 1) p value := by
+    cases hc : coversValue o.redacted.contains (maxRecursionDepth + 1) p value with
+    | true => exact coversValue_only_reveals _ _ _ _ hf hc
+    | false =>
+      cases ha : (reveals (maxRecursionDepth + 1) p value).any o.redacted.contains with
+      | false => rfl
+      | true => rw [coversValue_of_reveals _ _ _ _ ha] at hc; cases hc
+  simp only [mkErr, mkErrT, FieldErr.mk.injEq, true_and]
+  rw [← hiff]
+  cases hpc : o.redacted.contains p with
+  | false => simp
+  | true =>
+    simp only [Bool.true_or]
+    exact (List.any_eq_true.mpr ⟨p, hp, hpc⟩).symm
+
+/-- in the resolving model a value the redactor covers — its own path or anything nested in it — is hidden -/
+theorem partialT_redacted_absent (pm : List Path) (root : Shape) (var : VarTable) (o : Opts) (e : FieldErr)
+    (he : e ∈ fieldsOf (validatePartialT pm root var o)) :
+    ∃ loc t, ruleAt root e.path = some (loc, t) ∧ ∃ v ∈ varLookup var loc t,
+      e.code = tagPrefix ++ v.1 ∧
+      ((reveals (maxRecursionDepth + 1) e.path v.2).any o.redacted.contains = true → e.hidden = true) := by
+  rw [validatePartialT_eq] at he
+  obtain ⟨hleaf, v, hv, hev⟩ := partial_sound pm _ o e he
+  rw [lemma_ownTags_induced root var _ _ ((leaf_fixed_correct pm _).mpr hleaf)] at hv
+  unfold ownTagsT at hv
+  cases hr : ruleAt root e.path with
+  | none => simp [hr] at hv
+  | some lt =>
+    obtain ⟨loc, t⟩ := lt
+    simp only [hr, List.mem_map] at hv
+    obtain ⟨v0, hv0, rfl⟩ := hv
+    refine ⟨loc, t, rfl, v0, hv0, by rw [hev]; rfl, ?_⟩
+    intro hany
+    rw [hev]
+    simp only [mkErr, Bool.or_eq_true]
+    exact Or.inr hany
+
+-- a struct value with a covered field two levels down, behind a pointer and an interface slot
+example :
+    let v : Shape := .ptr (.struct [(⟨"Kids".toList, "kids".toList, false, false, []⟩,
+      .seq [.other, .iface (.map [("secret".toList, .other)])])])
+    coversValue (· == "u.kids.1.secret".toList) (maxRecursionDepth + 1) "u".toList v = true ∧
+    coversValue (· == "u.kids.0.secret".toList) (maxRecursionDepth + 1) "u".toList v = false ∧
+    reveals (maxRecursionDepth + 1) "u".toList v =
+      ["u".toList, "u.kids".toList, "u.kids.0".toList, "u.kids.1".toList, "u.kids.1.secret".toList] := by
+  decide
 
 /-! ### what `resolvePath` resolves to -/
 
@@ -1049,7 +1189,7 @@ example : ruleAt wT "Base".toList = none := by decide                           
 example : ruleAt wT "name.x".toList = none := by decide
 
 def wVar : VarTable :=
-  [([0, 0], "required".toList, [⟨"required".toList, [[]]⟩]), ([2, 1], "min=2".toList, [⟨"min".toList, [[]]⟩])]
+  [([0, 0], "required".toList, [("required".toList, .other)]), ([2, 1], "min=2".toList, [("min".toList, .other)])]
 
 example : ownTagsT wT wVar "id".toList = [⟨"required".toList, ["id".toList]⟩] := by decide
 example : ownTagsT wT wVar "tags.1".toList = [⟨"min".toList, ["tags.1".toList]⟩] := by decide
